@@ -47,6 +47,9 @@ type vkACLCase struct {
 	Seq    []int  `json:"seq"`
 	Target string `json:"target"`
 	OPT    bool   `json:"opt"`
+	// Shape: "" well-formed | "qd0" no question | "op5" opcode UPDATE | "trunc" body cut inside the question:
+	// packets the transports reject by themselves (FORMERR / NOTIMP) before any handler runs
+	Shape string `json:"shape,omitempty"`
 }
 
 func (c vkACLCase) String() string {
@@ -54,7 +57,7 @@ func (c vkACLCase) String() string {
 	for _, i := range c.Seq {
 		n = append(n, vkACLClients[i].Name)
 	}
-	return fmt.Sprintf("%s/%s %s opt=%v [%s]", c.Path, c.Proto, c.Target, c.OPT, strings.Join(n, " "))
+	return fmt.Sprintf("%s/%s %s opt=%v %s[%s]", c.Path, c.Proto, c.Target, c.OPT, c.Shape, strings.Join(n, " "))
 }
 
 func vkACLStats(w *vkSrvWorld) (int64, int64) {
@@ -87,10 +90,23 @@ func vkACLRun(w *vkSrvWorld, cs vkACLCase) (string, string) {
 		if cs.OPT {
 			p.OPT, p.DO, p.Size = true, true, 1232
 		}
+		switch cs.Shape {
+		case "qd0":
+			p.QD = 0
+		case "op5":
+			p.Opcode = 5
+		case "trunc":
+			p.NameForm = "trunc"
+		}
 		h0, m0 := vkACLStats(w)
 		r := w.serve(vkPath(cs.Path), cs.Proto, netip.MustParseAddrPort(cl.Addr), p.build())
 		h1, m1 := vkACLStats(w)
 		where := fmt.Sprintf("step %d (%s, %s)", step, cl.Name, cl.Addr)
+		if cl.Allow && cs.Shape != "" {
+			// what an ALLOWED client gets for a packet the transport rejects by itself is C06's business
+			outs = append(outs, fmt.Sprintf("allowed:%d", len(r.replies)))
+			continue
+		}
 		if cl.Allow {
 			if len(r.replies) != 1 {
 				return fmt.Sprintf("%s: a client inside the access list received %d replies", where, len(r.replies)), ""
@@ -162,10 +178,19 @@ func TestVerifC17Server(t *testing.T) {
 	w := newWorld()
 	defer func() { w.close() }()
 	n := 0
+	type tgt struct{ name, shape string }
+	targets := []tgt{{"hit.t.", ""}, {"unscripted-miss.t.", ""}, {"hit.t.", "qd0"}, {"hit.t.", "op5"}, {"hit.t.", "trunc"}}
 	for _, e := range entries {
-		for _, target := range []string{"hit.t.", "unscripted-miss.t."} {
+		for _, tg := range targets {
+			target := tg.name
 			for _, opt := range []bool{false, true} {
+				if tg.shape != "" && opt {
+					continue
+				}
 				for _, sq := range seqs {
+					if tg.shape != "" && len(sq) > 2 {
+						continue
+					}
 					n++
 					if !c.Mine(n) {
 						continue
@@ -185,7 +210,7 @@ func TestVerifC17Server(t *testing.T) {
 							continue
 						}
 					}
-					cs := vkACLCase{Path: e.path, Proto: e.proto, Seq: sq, Target: target, OPT: opt}
+					cs := vkACLCase{Path: e.path, Proto: e.proto, Seq: sq, Target: target, OPT: opt, Shape: tg.shape}
 					v, out := vkACLRun(w, cs)
 					c.Add("evaluations", 1)
 					c.Outcome(out)
@@ -210,8 +235,11 @@ func TestVerifC17Server(t *testing.T) {
 						if i := strings.IndexAny(key, "[(0123456789"); i > 0 {
 							key = strings.TrimSpace(key[:i])
 						}
+						if cs.Shape != "" {
+							key = "rejected-before-the-list(" + cs.Shape + "):" + key
+						}
 						c.Violation("server:"+e.path+"/"+e.proto+":"+key, v2+"\n    case: "+cs.String(), cs)
-						if c.NumViolations() > 8 {
+						if c.NumViolations() > 40 {
 							return
 						}
 					}
